@@ -5,3 +5,6 @@ import MpsProps.Src.SrcLProtocolsFrost
 import MpsProps.Src.SrcFrostKeygen
 import MpsProps.Src.SrcLProtocolsDoerner
 import MpsProps.Src.SrcDoernerKeygen
+import MpsProps.Src.SrcLInternalRound
+import MpsProps.Src.SrcLPkgParty
+import MpsProps.Src.SrcLPkgMathPolynomial
